@@ -227,7 +227,7 @@ func hpkeSection(x *h.X) {
 	idl := ids(x)
 	if x.Thorough() {
 		if costly {
-			cells = append(allCells(2, 3), extraIDCells(len(idl))...)
+			cells = append(allCells(2, 3), extraIDCells(len(idl), false)...)
 		} else {
 			cells = allCells(len(idl), 3)
 		}
